@@ -15,7 +15,7 @@ import json, os
 import common as C
 import framelane as F
 
-CFG = {"quick": ("MCHostile_quick.cfg", 300, 500, 10000), "thorough": ("MCHostile_thorough.cfg", 2400, 3000, 100000)}
+CFG = {"quick": ("MCHostile_quick.cfg", 300, 500, 10000), "thorough": ("MCHostile_thorough.cfg", 2400, 3000, 1000000)}
 
 
 def run(tier):
